@@ -340,6 +340,7 @@ def run(chk):
         if got != (mt.group('ver') if mt else None):
             chk.broken('model-pattern', 'the model of the two outdated patterns disagrees with re.match on %r: %r vs %r' % (m, got, mt.group('ver') if mt else None))
     relogin(chk)
+    takeover(chk)
     chk.assumptions += ['RSA and the session service are oracles: the harness opens the response with the private key; join() is a recording stub',
                         'json.loads is library code: the model starts from the extracted message', 'os.urandom is replaced by a recording fake so that the server side can be encrypted beforehand']
 
@@ -426,6 +427,56 @@ def relogin(chk):
                           'protocol %d: second login on a Connection whose first session %s (second connect: %s): %s is %s; on a fresh object %s' % (
                               pv, 'reached play and lost the stream' if ends_in_play else 'was refused by the server', how, k, str(reused.get(k))[:80], str(fresh.get(k))[:80]))
     chk.sample('relogin', {'first': 'set compression, login disconnect', 'second_connect': 'handler', 'compared': 'client bytes, reactor, compression state'}, k=1)
+
+
+def takeover(chk):
+    """plugin requests: each is answered exactly once - unsuccessfully by the library, or by the user's early listener when that
+    listener answers and raises IgnorePacket (then the library stays silent) - in request order"""
+    from minecraft.networking.connection import Connection
+    from minecraft.networking.packets import clientbound as cb, serverbound as sb
+    from minecraft.exceptions import IgnorePacket
+    rng, th = chk.rng, chk.tier == 'thorough'
+    for n in range(120 if th else 30):
+        pv = rng.choice([385, 390, 391, 404, 578, 706, 707, 757])
+        ids = proto.Ids(pv)
+        reqs = [(rng.randrange(2 ** 31), rng.choice(['minecraft:brand', 'x:y']), bytes(rng.randrange(256) for _ in range(rng.randrange(0, 12)))) for _ in range(rng.randrange(1, 6))]
+        take = {mid: rng.random() < 0.5 for mid, _c, _d in reqs}
+        thr = rng.choice([None, None, 0, 64])
+        steps = ([('comp', thr)] if thr is not None else []) + [('plugin',) + r for r in reqs] + [('success',)]
+        frames, _cut = build_server(ids, steps)
+        data = b''.join(frames)
+        arrival = rng.choice(['whole', 'frame'])
+        net = sim.Net([sim.Server([data] if arrival == 'whole' else list(frames), end='idle')]).install()
+        try:
+            conn = Connection('localhost', 25565, username='user', allowed_versions={pv})
+
+            def mine(p):
+                if take.get(p.message_id):
+                    conn.write_packet(sb.login.PluginResponsePacket(message_id=p.message_id, successful=True, data=b'ok:' + bytes([p.message_id % 256])))
+                    raise IgnorePacket()
+            conn.register_packet_listener(mine, cb.login.PluginRequestPacket, early=True)
+            conn.connect()
+            net.run_threads(conn)
+            reactor = type(conn.reactor).__name__
+        finally:
+            net.uninstall()
+        case = {'proto': pv, 'requests': [[m, c, d.hex()] for m, c, d in reqs], 'taken_over': [m for m in take if take[m]], 'threshold': thr, 'arrival': arrival}
+        chk.count('takeover', [pv, repr(reqs), repr(take), thr, arrival], len(reqs) >= 2)
+        try:
+            fr = proto.parse_frames(b''.join(net.servers[0].sends), thr_at=2 if thr is not None else None)
+            got = []
+            for pid, body in fr[2:]:
+                if pid == ids.sb_plugin_response:
+                    mid, j = proto.rd_varint(body, 0)
+                    got.append([mid, bool(body[j]), bytes(body[j + 1:])])
+            exp = [[m, True, b'ok:' + bytes([m % 256])] if take[m] else [m, False, b''] for m, _c, _d in reqs]
+            what = None if got == exp else 'plugin responses on the wire %s; expected %s' % ([[g[0], g[1], g[2].hex()] for g in got], [[g[0], g[1], g[2].hex()] for g in exp])
+            if what is None and reactor != 'PlayingReactor':
+                what = 'the login did not reach the play state (%s)' % reactor
+        except Exception as e:
+            what = 'client bytes do not parse: %s' % exn_name(e)
+        if what:
+            chk.violation('takeover', 'takeover:%d:%d' % (pv, hash(repr(case)) % 10 ** 6), {'case': case, 'observed': what}, 'protocol %d, plugin requests with a user listener taking some over: %s' % (pv, what))
 
 
 def replay(chk, rp):
